@@ -462,8 +462,12 @@ fn side_points(s: Seg, input_segs: &[Seg], clear: f64, tol: f64) -> Option<(Pt, 
         return None;
     }
     let (nx, ny) = (-dy / len, dx / len);
-    // carriers: input edges on which this sub-segment lies
-    let is_carrier = |t: &Seg| if tol == 0.0 { on_seg(*t, s.0) && on_seg(*t, s.1) } else { dist_pt_seg(s.0, *t) <= tol && dist_pt_seg(s.1, *t) <= tol };
+    // carriers: input edges on which this sub-segment lies. With a tolerance, a second edge leaving the same vertex at
+    // a very small angle (thin spike) can also be within the tolerance of both endpoints: only edges about as close as
+    // the closest one count (coincident edges of the two operands are equally close).
+    let dist_to = |t: &Seg| dist_pt_seg(s.0, *t).max(dist_pt_seg(s.1, *t));
+    let d_min = input_segs.iter().map(|t| dist_to(t)).fold(f64::INFINITY, f64::min);
+    let is_carrier = |t: &Seg| if tol == 0.0 { on_seg(*t, s.0) && on_seg(*t, s.1) } else { dist_to(t) <= tol.min(16.0 * d_min + tol * 1e-3) };
     let others: Vec<Seg> = input_segs.iter().filter(|t| !is_carrier(t)).cloned().collect();
     for frac in [0.3125, 0.5, 0.6875, 0.2, 0.8] {
         let m = (s.0 .0 + frac * dx, s.0 .1 + frac * dy);
